@@ -624,22 +624,23 @@ def _replay_delete(args: dict) -> str | None:
     return (got if isinstance(got, str) else "DELETE outcome differs from the specification") + f" (opener {_IDS[args['i_open']]!r}, requester {_IDS[args['r']]!r}, args {args!r})"
 
 
+_DEL_OPENERS = pick((0, 2), (0, 1, 2, 3))  # quick: anonymous and one authenticated opener (the full opener x requester matrix is in the middleware items)
 _DEL_ENC = [sk._SessionResource.on_delete, sk._SessionRegistry.get, sk._SessionRegistry.close, sk._StickyMiddleware._principal_key]
 
 
-@cond(q=60, t=300, stubs=ASSUMPTIONS[:4], encoded=_DEL_ENC, bound=_MW_BOUND + "session 1's or session 2's genuine token", replay=_replay_delete, signature=lambda a, c: "C25:delete:decision")
+@cond(q=60, t=300, stubs=ASSUMPTIONS[:4], encoded=_DEL_ENC, bound="(openers: %s) " % (_DEL_OPENERS,) + _MW_BOUND + "session 1's or session 2's genuine token", replay=_replay_delete, signature=lambda a, c: "C25:delete:decision")
 def delete_204_iff_live_and_owned_else_uniform_200(i_open: int, r: int, tok_sel: int, where: int, life: int, dt: int, ttl: int, twin: bool) -> bool:
     """
-    pre: 0 <= i_open <= 3 and 0 <= r <= 3 and 0 <= tok_sel <= 1 and 0 <= where <= 2 and 0 <= life <= 2 and dt >= 0 and 0 <= ttl <= 1000000000
+    pre: i_open in _DEL_OPENERS and 0 <= r <= 3 and 0 <= tok_sel <= 1 and 0 <= where <= 2 and 0 <= life <= 2 and dt >= 0 and 0 <= ttl <= 1000000000
     post: _
     """
     return _delete_check(i_open, r, tok_sel, where, life, dt, ttl, _STUBBED, twin) is True
 
 
-@cond(q=60, t=300, stubs=ASSUMPTIONS[:4], encoded=_DEL_ENC, bound=_MW_BOUND + "sealed under a foreign key / not a token / absent", replay=_replay_delete, signature=lambda a, c: "C25:delete:forged-token")
+@cond(q=60, t=300, stubs=ASSUMPTIONS[:4], encoded=_DEL_ENC, bound="(openers: %s) " % (_DEL_OPENERS,) + _MW_BOUND + "sealed under a foreign key / not a token / absent", replay=_replay_delete, signature=lambda a, c: "C25:delete:forged-token")
 def delete_with_forged_or_absent_token_is_uniform_200(i_open: int, r: int, tok_sel: int, where: int, life: int, dt: int, ttl: int) -> bool:
     """
-    pre: 0 <= i_open <= 3 and 0 <= r <= 3 and 2 <= tok_sel <= 4 and 0 <= where <= 2 and 0 <= life <= 2 and dt >= 0 and 0 <= ttl <= 1000000000
+    pre: i_open in _DEL_OPENERS and 0 <= r <= 3 and 2 <= tok_sel <= 4 and 0 <= where <= 2 and 0 <= life <= 2 and dt >= 0 and 0 <= ttl <= 1000000000
     post: _
     """
     return _delete_check(i_open, r, tok_sel, where, life, dt, ttl, _STUBBED) is True
@@ -814,19 +815,36 @@ def session_binding_separates_all_identities(budget: float, replay=None) -> dict
                 res["discharged"] += 1
             res["samples"].append(smp)
             out[(sname, label[:9])] = (r, smp)
-    for key in ("reachable", "session A"):
+    def witness_of(key):  # type: ignore[no-untyped-def]
         for sname in ("cvc5", "z3"):
             r, smp = out[(sname, key)]
             if r == "sat":
-                if "witness" not in smp:
-                    return {**res, "verdict": "INCONCLUSIVE", "detail": f"sat but witness unusable: {smp.get('witness_error')}"}
-                rp = _replay_binding(tc.auth_from_json(smp["witness"]["x"]), tc.auth_from_json(smp["witness"]["y"]))
-                if rp["verdict"] == "VIOLATION" or key == "reachable":
-                    return {**res, **rp, "cex": smp["witness"]}
-                # AAD collision that the registry key still separates: weaker than the property, but the primary binding is gone
-                return {**res, "verdict": "INCONCLUSIVE", "detail": f"_compute_aad is not injective ({smp['witness']}) although the registry key still separates the pair", "cex": smp["witness"]}
-            if r != "unsat" and not (sname == "z3" and r == "unknown"):
-                return {**res, "verdict": "INCONCLUSIVE", "detail": f"{key}: {sname}={r}"}
+                return smp
+        return None
+
+    # 1. the primary binding: if the AAD alone separates all identities, nothing is reachable (conjunction is weaker)
+    r_aad = out[("cvc5", "session A")][0]
+    w_aad = witness_of("session A")
+    if w_aad is None:
+        if r_aad != "unsat":
+            return {**res, "verdict": "INCONCLUSIVE", "detail": f"session AAD injectivity: cvc5={r_aad}"}
+    else:
+        if "witness" not in w_aad:
+            return {**res, "verdict": "INCONCLUSIVE", "detail": f"sat but witness unusable: {w_aad.get('witness_error')}"}
+        rp = _replay_binding(tc.auth_from_json(w_aad["witness"]["x"]), tc.auth_from_json(w_aad["witness"]["y"]))
+        if rp["verdict"] == "VIOLATION":
+            return {**res, **rp, "cex": w_aad["witness"]}
+        # 2. the AAD collides for a pair the registry key may still separate: ask for a pair that passes both layers
+        w_both = witness_of("reachable")
+        if w_both is not None and "witness" in w_both:
+            rp = _replay_binding(tc.auth_from_json(w_both["witness"]["x"]), tc.auth_from_json(w_both["witness"]["y"]))
+            return {**res, **rp, "cex": w_both["witness"]}
+        return {
+            **res,
+            "verdict": "INCONCLUSIVE",
+            "detail": f"_compute_aad is not injective (e.g. {w_aad['witness']}); for that pair the registry principal key still differs; both-layer query: cvc5={out[('cvc5', 'reachable')][0]} z3={out[('z3', 'reachable')][0]}",
+            "cex": w_aad["witness"],
+        }
     res["verdict"] = "CONFIRMED"
     res["detail"] = "no two distinct identities (NUL-free domains) share the session AAD, hence none shares (AAD, registry key); the registry key alone does collide for anonymous vs authenticated('', 'anonymous') - defence in depth only"
     return res
